@@ -261,10 +261,11 @@ type result struct {
 }
 
 type stats struct {
-	success, handlerErr, integrityErr, otherErr int
-	offered, handlers                           int
-	R                                           *ref
-	multiFailure                                bool
+	success, handlerErr, integrityErr, otherErr     int
+	offered, handlers                               int
+	srcNotClosed, srcClosedTwice, srcReadAfterClose int
+	R                                               *ref
+	multiFailure                                    bool
 }
 
 func expectedRange(sc *scenario) []byte {
@@ -459,6 +460,16 @@ func runScenario(sc *scenario, rng *gen.Rng, st *stats) (viol []result, trace []
 	// (4) instrumented: a source with the object's content that returned its
 	// error must have seen it offered (to whichever handler encloses it).
 	for id, s := range w.srcs {
+		// Recorded, not asserted (release-exactly-once is C04's statement).
+		switch {
+		case s.closes == 0:
+			st.srcNotClosed++
+		case s.closes > 1:
+			st.srcClosedTwice++
+		}
+		if s.readsAfterClose > 0 {
+			st.srcReadAfterClose++
+		}
 		offers := 0
 		for _, h := range w.ord {
 			for _, e := range h.onErr {
@@ -771,27 +782,43 @@ func main() {
 		Property: "C16",
 		Level:    "fault_enumeration",
 		Rule: "random: case = object (0..300 bytes, a few around 64 KiB; 8 digest functions) x base buffer (chunk reader / reader / reader-at / byte slice / known error state / buffer with its own handler; own chunking incl. empty chunks, short reads, error or EOF delivered with or after the last bytes; optional I/O error at any position 0..n; optional wrong content) x handler script of 0..4 answers (replacement of any of those kinds with its own chunking, failure and content; or nil+error) nested up to depth 2 x consumer (ToByteSlice, ToReader with read sizes, ToChunkReader(off,max), IntoWriter, ReadAt(off,len), ToProto, CloneCopy, CloneStream with two goroutines, Discard; early close); " +
-			"exhaustive: sizes 0..S (S=3 quick, 5 thorough) x base kind x every chunking of the base x every failure position x replacement kind x every chunking of the replacement x every second failure position x consumers with every offset; " +
+			"exhaustive: sizes 0..S (S=3 quick, 6 thorough) x base kind x every chunking of the base x every failure position x replacement kind x every chunking of the replacement x every second failure position x consumers with every offset; " +
 			"distinct = hash of the scenario shape (kinds, chunkings, failure positions, variants, consumer); non-trivial = at least one error was offered to a handler",
 		Workers:     8,
 		CaseTimeout: 120 * time.Second,
 		Floors: map[string]int64{
-			"stitches_at_offset_gt0":            4000,
-			"stitch_inside_replacement_chunk":   1000,
-			"cases_two_or_more_offers":          2000,
-			"replacement_failed_itself":         1500,
-			"error_state_buffer_offered":        1000,
-			"handler_error_delivered":           800,
-			"integrity_error_after_stitch":      300,
-			"wrong_byte_in_delivered_range":     40,
+			"stitches_at_offset_gt0":            10000,
+			"stitch_inside_replacement_chunk":   1300,
+			"cases_two_or_more_offers":          10000,
+			"replacement_failed_itself":         10000,
+			"error_state_buffer_offered":        2000,
+			"handler_error_delivered":           7000,
+			"integrity_error_after_stitch":      400,
+			"wrong_byte_in_delivered_range":     70,
 			"nested_error_passed_to_outer":      200,
-			"failure_before_resume_offset":      300,
-			"failure_at_eof_position":           500,
-			"success_after_recovery":            3000,
-			"done_exactly_once_checked":         10000,
-			"consumer_ToChunkReader_offset_gt0": 500,
-			"consumer_ReadAt":                   500,
-			"exh_subcases":                      10000,
+			"failure_before_resume_offset":      2000,
+			"failure_at_eof_position":           10000,
+			"success_after_recovery":            12000,
+			"done_exactly_once_checked":         25000,
+			"consumer_ToChunkReader_offset_gt0": 5000,
+			"consumer_ToByteSlice":              1300,
+			"consumer_ToReader":                 2000,
+			"consumer_ToChunkReader":            2500,
+			"consumer_IntoWriter":               1300,
+			"consumer_ReadAt":                   2000,
+			"consumer_ToProto":                  600,
+			"consumer_CloneCopy":                600,
+			"consumer_CloneStream":              600,
+			"consumer_Discard":                  600,
+			"consumer_early_close":              700,
+			"large_objects":                     30,
+			// the enumeration is deterministic: its size is known exactly
+			"quick:exh_subcases":                     61050,
+			"thorough:exh_subcases":                  6193626,
+			"thorough:stitches_at_offset_gt0":        400000,
+			"thorough:wrong_byte_in_delivered_range": 5000,
+			"thorough:nested_error_passed_to_outer":  15000,
+			"thorough:large_objects":                 2000,
 		},
 		Assumptions: []string{
 			"a failed source keeps returning its error (sticky), and returns correct bytes before the failure position unless the scenario gives it wrong content",
@@ -821,6 +848,9 @@ func account(w *run.Worker, sc *scenario, st *stats, prefix string) {
 	w.Count("failure_at_eof_position", int64(R.eofPosFailure))
 	w.Count("handler_finished_immediately", int64(R.detached))
 	w.Count("onerror_calls", int64(st.offered))
+	w.Count("obs_source_never_closed", int64(st.srcNotClosed))
+	w.Count("obs_source_closed_more_than_once", int64(st.srcClosedTwice))
+	w.Count("obs_source_read_after_close", int64(st.srcReadAfterClose))
 	w.Count("handler_error_delivered", int64(st.handlerErr))
 	w.Count("integrity_error_after_stitch", int64(st.integrityErr))
 	if st.multiFailure {
